@@ -59,6 +59,15 @@ def gen_cases(chk):
             for span in spans:
                 for r in (1e-3, 1e-2):
                     cases.append("pw %x %s %s %s 10 %x %d" % (ty, dims, dbits(r), rng.choice(("szMode=SZ_BEST_SPEED", "-")), rng.getrandbits(16), span))
+    # every rank and both types on the accelerated path with (a) incompressible data containing exact zeros (the verbatim fall-back must store
+    # the caller's data, not the kernel's private copy) and (b) smooth mixed-sign, all-negative and lone-zero fields (signs come from the sign plane
+    # and, for exactly stored elements, from the stored value: the predictors must work on magnitudes)
+    for t in ((300,), (30, 40), (10, 16, 24), (4, 6, 10, 12)):
+        dims = ",".join("%x" % v for v in [0] * (5 - len(t)) + list(t))
+        for ty in (0, 1):
+            for g, span in ((3, 30), (3, 3), (1, 3), (4, 3), (5, 3), (8, 3)):
+                for r in (1e-3, 1e-2):
+                    cases.append("pw %x %s %s %s %d %x %d" % (ty, dims, dbits(r), rng.choice(("szMode=SZ_BEST_SPEED", "-")), g, rng.getrandbits(16), span))
     n = 1500 if thorough else 260
     for _ in range(n):
         t = rng.choice(SHAPES)
